@@ -826,7 +826,7 @@ func (e *Exec) loopHeader(b *ssa.BasicBlock, li *loopInfo, reach string, pre *He
 	if len(li.modset.vars) == 0 && !li.modset.all {
 		h = pre
 	} else {
-		h = pre.havoc(li.modset, "loop")
+		h = pre.havocSince(li.modset, "loop", e.heap0.get("clock"))
 	}
 	for _, phi := range phis {
 		t := e.havocVal(phi.Type(), phi.Name()+"_"+phi.Comment, h)
